@@ -15,9 +15,9 @@ COMPONENTS = {
     'reference': ['sim/ref_format.py decides who can decrypt what', 'sim/history.py model'],
 }
 ASSUMPTIONS = ['scrypt work factor reduced', 'a clone key (same password, fresh salt) has a different user key: it is a shared key']
-PROBES = ['unlock_mismatch', 'foreign_delete_shared', 'foreign_delete_independent', 'delete', 'clean']
+PROBES = ['near_miss_unlock', 'blake2b_kdf_refused', 'unlock_mismatch', 'foreign_delete_shared', 'foreign_delete_independent', 'delete', 'clean']
 TIERS = {'quick': {'budget_s': 70, 'batch': 10}, 'thorough': {'budget_s': 900, 'batch': 20}}
-ORACLES = ('store', 'confined', 'selection', 'listing', 'dedup')
+ORACLES = ('store', 'confined', 'selection', 'listing', 'dedup', 'near_miss')
 
 
 def gen_case(seed, tier):
